@@ -666,7 +666,8 @@ class LoopWorld(World):
         self.pushed = {}
         self.request_level = {}
         self.root = root = Manager()
-        self.server = TCPServer(('127.0.0.1', 0), channel='web').register(root)
+        from vlib.netwait import retry_addr_in_use
+        self.server = retry_addr_in_use(lambda: TCPServer(('127.0.0.1', 0), channel='web')).register(root)
         H['HTTP'](self.server).register(root)
         H['Dispatcher']().register(root)
         self.register_app(root)
